@@ -277,12 +277,208 @@ def replay(pid, path):
     return r.returncode
 
 
+
+# ---------------------------------------------------------------------------------------------
+# native checks: C15 (real libraries, child processes), C17 (dll.c), C18 (time arithmetic)
+CINC = lambda: f'-I{REPO}/public -I{REPO}/platform/linux -I{REPO}/platform/gcc -I{REPO}/platform/x86_64 -I{REPO}/platform/posix -I{REPO}/internal'
+CXXINC = lambda: f'-I{REPO}/public -I{REPO}/platform/c++11.futex -I{REPO}/platform/c++11 -I{REPO}/platform/gcc -I{REPO}/platform/x86_64 -I{REPO}/platform/posix -I{REPO}/internal'
+SAN = '-g -O1 -fsanitize=address,undefined -fno-sanitize-recover=undefined'
+NATIVE_RULES = {
+    'C17': 'part (a): EVERY state of the model-state graph reachable over 5 elements and 2 lists (rings of elements, list heads) is visited and EVERY legal operation (make_first, make_last, remove, splice_after) is executed from it on the real dll.c and compared with plain arrays (forward, backward, emptiness, self-linked singletons) - exhaustive; part (b): rapidcheck sequences of up to 200 operations over 8 elements / 3 lists; part (c): libFuzzer over the same interpreter with ASan+UBSan; non-trivial = sequence contains a splice or a removal from a list of >= 2 elements; distinct = distinct model states (a) + distinct operation sequences (b)',
+    'C18': 'part (a): boundary grid seconds {0,+-1,+-2,+-2^31,2^31-1,+-2^40,+-2^62,max-1,min+2} x nanoseconds {0,1,5e8,1e9-1}, ALL pairs, cmp transitivity triples, ms/us grid, both builds (C file and C++ file linked together) - exhaustive; part (b): rapidcheck over normalized pairs with magnitudes spread over all bit lengths plus random 32-bit ms/us arguments; part (c): libFuzzer; oracle = 128-bit integer arithmetic; pairs whose seconds arithmetic would overflow time_t are not judged for add/sub; non-trivial = the pair needs a carry or a borrow; distinct = distinct pairs',
+    'C15': 'exhaustive boundary grid 16 deadlines (0, +-1 ns, +-1 s, -2^31 s, -2^62 s, INT64_MIN+1 s, now-30ms, now-2s, now+20ms, now+40ms, max-1ns, max-1s, no_deadline, now+1000s) x 9 timed entry points x {libnsync.a, libnsync_cpp.a} built by cmake from the working tree, each case in its own child process with a 20 s watchdog (3/3 hangs only); plus rapidcheck random deadlines (pre-epoch, epoch..now, now-d, now+20..60ms, far future); non-trivial = a deadline the existing suite does not use (not 0, not no_deadline, not now+small); distinct = distinct (library, entry, deadline) triples',
+}
+
+
+def native_build_common():
+    os.makedirs(BIN, exist_ok=True)
+    jobs = []
+    for name, src, extra in (('c17', f'{V}/native/c17_dll.cc', ''), ('c18', f'{V}/native/c18_time.cc', ''),):
+        o = f'{BIN}/{name}.o'
+        if not os.path.exists(o) or os.path.getmtime(o) < os.path.getmtime(src):
+            jobs.append(f'clang++ -std=gnu++17 {SAN} -c {src} -o {o}')
+        fo = f'{BIN}/{name}_fuzz.o'
+        if not os.path.exists(fo) or os.path.getmtime(fo) < os.path.getmtime(src):
+            jobs.append(f'clang++ -std=gnu++17 {SAN} -fsanitize=fuzzer-no-link -D{name.upper()}_FUZZ -c {src} -o {fo}')
+    d = f'{BIN}/c15_drive'
+    if not os.path.exists(d) or os.path.getmtime(d) < os.path.getmtime(f'{V}/native/c15_drive.cc'):
+        jobs.append(f'g++ -std=gnu++17 -O1 -g {V}/native/c15_drive.cc -lrapidcheck -o {d}')
+    ps = [subprocess.Popen(c, shell=True) for c in jobs]
+    if any(p.wait() != 0 for p in ps):
+        print('check.py: building the native drivers failed'); sys.exit(2)
+
+
+def must(cmd):
+    r = sh(cmd)
+    if r.returncode != 0:
+        print(r.stdout[-3000:]); print('check.py: build step failed:', cmd[:200]); sys.exit(2)
+
+
+def native_build(pid):
+    wdir = f'{WORK}/{pid}'
+    os.makedirs(wdir, exist_ok=True)
+    native_build_common()
+    if pid == 'C17':
+        must(f'clang {SAN} {CINC()} -c {REPO}/internal/dll.c -o {wdir}/dll.o')
+        must(f'clang {SAN} -fsanitize=fuzzer-no-link {CINC()} -c {REPO}/internal/dll.c -o {wdir}/dll_fuzz.o')
+        must(f'clang++ -fsanitize=address,undefined -o {wdir}/c17_check {BIN}/c17.o {wdir}/dll.o -lrapidcheck')
+        must(f'clang++ -fsanitize=fuzzer,address,undefined -o {wdir}/c17_fuzz {BIN}/c17_fuzz.o {wdir}/dll_fuzz.o')
+    elif pid == 'C18':
+        defs = '-DNSYNC_USE_CPP11_TIMEPOINT -DNSYNC_ATOMIC_CPP11'
+        for tag, extra in (('', ''), ('_fuzz', '-fsanitize=fuzzer-no-link')):
+            must(f'clang {SAN} {extra} {CINC()} -c {REPO}/platform/posix/src/time_rep.c -o {wdir}/time_rep_c{tag}.o')
+            must(f'clang {SAN} {extra} {CINC()} -c {REPO}/internal/time_internal.c -o {wdir}/time_internal_c{tag}.o')
+            must(f'clang++ -std=gnu++11 {SAN} {extra} {CXXINC()} {defs} -c {REPO}/platform/c++11/src/time_rep_timespec.cc -o {wdir}/time_rep_cpp{tag}.o')
+            must(f'clang++ -x c++ -std=gnu++11 {SAN} {extra} {CXXINC()} {defs} -c {REPO}/internal/time_internal.c -o {wdir}/time_internal_cpp{tag}.o')
+        objs = lambda tag: ' '.join(f'{wdir}/{n}{tag}.o' for n in ('time_rep_c', 'time_internal_c', 'time_rep_cpp', 'time_internal_cpp'))
+        must(f'clang++ -fsanitize=address,undefined -o {wdir}/c18_check {BIN}/c18.o {objs("")} -lrapidcheck -lpthread')
+        must(f'clang++ -fsanitize=fuzzer,address,undefined -o {wdir}/c18_fuzz {BIN}/c18_fuzz.o {objs("_fuzz")} -lpthread')
+    elif pid == 'C15':
+        must(f'cmake -G Ninja -S {REPO} -B {wdir}/build -DNSYNC_ENABLE_TESTS=OFF -DCMAKE_BUILD_TYPE=RelWithDebInfo')
+        must(f'cmake --build {wdir}/build')
+        must(f'gcc -O1 -g -I{REPO}/public {V}/native/c15_child.c {wdir}/build/libnsync.a -lpthread -o {wdir}/c15_child_c')
+        must(f'g++ -std=gnu++11 -O1 -g -DNSYNC_USE_CPP11_TIMEPOINT -DNSYNC_ATOMIC_CPP11 -I{REPO}/platform/c++11 -I{REPO}/public -x c++ {V}/native/c15_child.c -x none {wdir}/build/libnsync_cpp.a -lpthread -o {wdir}/c15_child_cpp')
+
+
+def native_cmd(pid, wdir):
+    if pid == 'C17':
+        return [f'{wdir}/c17_check']
+    if pid == 'C18':
+        return [f'{wdir}/c18_check']
+    return [f'{BIN}/c15_drive', '--child-c', f'{wdir}/c15_child_c', '--child-cpp', f'{wdir}/c15_child_cpp']
+
+
+def run_native_property(pid, tier, seed):
+    t0 = time.time()
+    wdir = f'{WORK}/{pid}'
+    native_build(pid)
+    base = native_cmd(pid, wdir)
+    violations = []
+    # regression cases first
+    regress_n = 0
+    for case in sorted(glob.glob(f'{V}/regress/{pid}/*.case')):
+        regress_n += 1
+        r = subprocess.run(base + ['--replay', case], stdout=subprocess.PIPE, stderr=subprocess.STDOUT, text=True, timeout=600)
+        if r.returncode == 1:
+            violations.append(dict(msg=r.stdout.strip().splitlines()[-1], case=open(case).read(), source=f'regression case {os.path.basename(case)}'))
+        elif r.returncode != 0:
+            print(r.stdout); print('check.py: regression replay failed to run'); return 2
+    quick = tier == 'quick'
+    if pid == 'C15':
+        nsh, cases = 8, (40 if quick else 1500)
+    elif pid == 'C17':
+        nsh, cases = NPROC, (20000 if quick else 600000)
+    else:
+        nsh, cases = NPROC, (300000 if quick else 8000000)
+    procs = []
+    for k in range(nsh):
+        out = f'{wdir}/shard_{k}.json'; fo = f'{wdir}/shard_{k}.fail'
+        for p_ in (out, fo):
+            if os.path.exists(p_): os.remove(p_)
+        cmd = base + ['--out', out, '--fail-out', fo, '--cases', str(cases), '--seed', str(derive_seed(seed, pid, k))]
+        if pid == 'C15':
+            cmd += ['--shard', str(k), '--nshards', str(nsh)]
+        if pid == 'C17' and k > 0:
+            cmd += ['--exhaustive-elements', '3']   # the full 5-element enumeration runs once, in shard 0
+        procs.append((k, out, fo, subprocess.Popen(cmd, stdout=open(f'{wdir}/shard_{k}.log', 'w'), stderr=subprocess.STDOUT)))
+    # libFuzzer burst (C17, C18) while the shards run
+    fuzz = None
+    fuzz_runs = 0
+    if pid in ('C17', 'C18'):
+        fdir = f'{wdir}/fuzz'; shutil.rmtree(fdir, ignore_errors=True); os.makedirs(f'{fdir}/corpus'); os.makedirs(f'{fdir}/art')
+        seeds_dir = f'{V}/corpus/{pid}'
+        runs = 400000 if quick else 30000000
+        cmd = [f'{wdir}/{pid.lower()}_fuzz', f'-runs={runs}', f'-seed={max(1, seed)}', '-max_len=600', f'-artifact_prefix={fdir}/art/', '-print_final_stats=1', f'{fdir}/corpus'] + ([seeds_dir] if os.path.isdir(seeds_dir) else [])
+        fuzz = subprocess.Popen(cmd, stdout=open(f'{wdir}/fuzz.log', 'w'), stderr=subprocess.STDOUT)
+    evaluations = 0; distinct = 0; samples = []; extra = {}; broken = 0
+    for (k, out, fo, p) in procs:
+        try:
+            p.wait(timeout=3 * 3600)
+        except subprocess.TimeoutExpired:
+            p.kill(); broken += 1; continue
+        if not os.path.exists(out):
+            broken += 1; continue
+        d = json.load(open(out))
+        if pid == 'C17':
+            evaluations += d['rc_cases'] + (d['exhaustive_transitions'] if k == 0 else 0)
+            distinct += d['rc_distinct_nontrivial'] + (d['exhaustive_states'] if k == 0 else 0)
+            if k == 0:
+                extra.update(exhaustive_states=d['exhaustive_states'], exhaustive_transitions=d['exhaustive_transitions'], exhaustive_elements=d['exhaustive_elements'])
+        elif pid == 'C18':
+            evaluations += d['rc_cases'] + (d['grid_cases'] if k == 0 else 0)
+            distinct += d['rc_distinct_nontrivial'] + (d['grid_nontrivial'] if k == 0 else 0)
+            if k == 0:
+                extra.update(grid_cases=d['grid_cases'])
+        else:
+            evaluations += d['evaluations']; distinct += d['distinct_nontrivial']
+        if len(samples) < 5:
+            samples += d.get('samples', [])[:2]
+        if not d['ok']:
+            violations.append(dict(msg=d['failure'], case=open(fo).read() if os.path.exists(fo) else '', source=f'shard {k}'))
+    if fuzz is not None:
+        try:
+            fuzz.wait(timeout=3 * 3600)
+        except subprocess.TimeoutExpired:
+            fuzz.kill()
+        log = open(f'{wdir}/fuzz.log', errors='replace').read()
+        for line in log.splitlines():
+            if line.startswith('stat::number_of_executed_units:'):
+                fuzz_runs = int(line.split()[-1])
+        arts = [a for a in glob.glob(f'{wdir}/fuzz/art/crash-*')]
+        for a in arts:
+            violations.append(dict(msg='libFuzzer crash artifact: ' + ' '.join(l for l in log.splitlines() if 'violation' in l or 'ERROR' in l)[:300], case=None, artifact=a, source='libFuzzer'))
+        extra['libfuzzer_runs'] = fuzz_runs
+        evaluations += fuzz_runs
+    if broken:
+        print(f'check.py: {broken} shard(s) of {pid} produced no result: the check itself is broken (exit 2)'); return 2
+    wall = time.time() - t0
+    ev = dict(property_id=pid, tier=tier, seed=seed, level='exploration',
+              coverage=dict(evaluations=evaluations + regress_n, distinct_nontrivial=distinct, rule=NATIVE_RULES[pid], samples=samples or ['(none)'],
+                            exhaustive=(pid in ('C17', 'C18')), regression_cases_replayed=regress_n, **extra),
+              assumptions=['C17/C18: the functions are pure, so the natively compiled sources (ASan+UBSan) are the code under test',
+                           'C15: wall-clock behaviour of the host; a watchdog hit is re-run and only 3/3 hangs count'],
+              wall_s=round(wall, 2), violations=len(violations))
+    os.makedirs(f'{V}/evidence', exist_ok=True)
+    json.dump(ev, open(f'{V}/evidence/{pid}.json', 'w'), indent=1)
+    for e in [e for e in load_known(pid) if e.get('status') == 'open']:
+        print(f"KNOWN-FINDING: property={pid} {e['what']}")
+    if violations:
+        os.makedirs(f'{V}/replays/{pid}', exist_ok=True)
+        for i, v in enumerate(violations[:4]):
+            if v.get('artifact'):
+                path = f'{V}/replays/{pid}/fuzz_{i}.bin'; shutil.copy(v['artifact'], path)
+            else:
+                path = f'{V}/replays/{pid}/case_{i}.case'; open(path, 'w').write(v['case'] or '')
+            print(f"  violation from {v['source']}: {v['msg']}")
+            print(f'VIOLATION property={pid} replay={path}')
+        return 1
+    print(f"OK property={pid} tier={tier} evaluations={ev['coverage']['evaluations']} distinct_nontrivial={distinct} wall={wall:.1f}s")
+    return 0
+
+
+def replay_native(pid, path):
+    wdir = f'{WORK}/{pid}'
+    native_build(pid)
+    if path.endswith('.bin'):
+        r = subprocess.run([f'{wdir}/{pid.lower()}_fuzz', path])
+        if r.returncode != 0:
+            print(f'VIOLATION property={pid} replay={path}'); return 1
+        return 0
+    r = subprocess.run(native_cmd(pid, wdir) + ['--replay', path])
+    if r.returncode == 1:
+        print(f'VIOLATION property={pid} replay={path}')
+    return r.returncode
+
+NATIVE = ('C15', 'C17', 'C18')
+
+
 def main():
     args = sys.argv[1:]
     if not args:
         print(__doc__); return 2
     if args[0] == '--setup':
         ensure_driver()
+        native_build_common()
         print('setup ok')
         return 0
     pid = args[0]
@@ -299,7 +495,9 @@ def main():
     seed = int(os.environ.get('VERIF_SEED', '1') or '1')
     os.makedirs(f'{WORK}/{pid}', exist_ok=True)
     if rp:
-        return replay(pid, rp)
+        return replay_native(pid, rp) if pid in NATIVE else replay(pid, rp)
+    if pid in NATIVE:
+        return run_native_property(pid, tier, seed)
     if pid in PROPS and 'sim' in PROPS[pid]:
         return run_sim_property(pid, tier, seed)
     print('unknown property', pid); return 2
